@@ -115,7 +115,9 @@ func (w *World) Query(ctx sdk.Context, from, to common.Address, a abi.ABI, res i
 	return w.App.EvmKeeper.QueryContract(ctx, from, to, a, method, res, args...)
 }
 
-func ethtypesSigner(chainID *big.Int) ethtypes.Signer { return ethtypes.LatestSignerForChainID(chainID) }
+func ethtypesSigner(chainID *big.Int) ethtypes.Signer {
+	return ethtypes.LatestSignerForChainID(chainID)
+}
 
 // Deploy creates a contract with the given init code from actor (real EvmKeeper.DeployContract).
 func (w *World) Deploy(ctx sdk.Context, from Actor, initCode []byte) common.Address {
